@@ -26,6 +26,10 @@ CONTRACTS = {
             'shape-max': 'max_conn_mat.shape[0] == matrix.shape[0] and max_conn_mat.shape[1] == matrix.shape[1]',
             'shape-nonneg': 'matrix.shape[0] >= 0 and matrix.shape[1] >= 0',
             'shape-src': 'src_node_settings.shape[0] >= matrix.shape[0] and src_node_settings.shape[1] >= 2 and src_n_override.shape[0] >= matrix.shape[0] and len(max_src) >= matrix.shape[0] and src_n_override.shape[1] >= 0',
+            # representation of the override tables (AggregateAssignmentMatrixGenerator._get_n_conn_override): a row is
+            # either all -1 (node not overridden) or all 0/1 flags
+            'override-rows': 'forall(i, 0, matrix.shape[0], forall(c, 0, src_n_override.shape[1], src_n_override[i, c] == -1) or forall(c, 0, src_n_override.shape[1], src_n_override[i, c] == 0 or src_n_override[i, c] == 1)) and '
+                             'forall(j, 0, matrix.shape[1], forall(c, 0, tgt_n_override.shape[1], tgt_n_override[j, c] == -1) or forall(c, 0, tgt_n_override.shape[1], tgt_n_override[j, c] == 0 or tgt_n_override[j, c] == 1))',
             'shape-tgt': 'tgt_node_settings.shape[0] >= matrix.shape[1] and tgt_node_settings.shape[1] >= 2 and tgt_n_override.shape[0] >= matrix.shape[1] and len(max_tgt) >= matrix.shape[1] and tgt_n_override.shape[1] >= 0',
         },
         # lemma (sum of non-negative entries is non-negative); entries of a connection matrix are counts
@@ -35,12 +39,15 @@ CONTRACTS = {
         },
         defs={
             'chk': (('n', 'row', 'mx'), CHECK),
-            'okS': (('i',), 'ite(sum(matrix[i, :]) < src_n_override.shape[1] and src_n_override[i, sum(matrix[i, :])] == 0, False, '
-                            'ite(sum(matrix[i, :]) < src_n_override.shape[1] and src_n_override[i, sum(matrix[i, :])] == 1, True, '
-                            'chk(sum(matrix[i, :]), src_node_settings[i, :], max_src[i])))'),
-            'okT': (('j',), 'ite(sum(matrix[:, j]) < tgt_n_override.shape[1] and tgt_n_override[j, sum(matrix[:, j])] == 0, False, '
-                            'ite(sum(matrix[:, j]) < tgt_n_override.shape[1] and tgt_n_override[j, sum(matrix[:, j])] == 1, True, '
-                            'chk(sum(matrix[:, j]), tgt_node_settings[j, :], max_tgt[j])))'),
+            # statement level: a node whose admissible connection counts are overridden for this existence pattern
+            # (table row of 0/1 flags; rows of -1 = no override) accepts exactly the listed counts -- counts beyond
+            # the table are not listed; any other node is judged by its own settings
+            'okS': (('i',), 'ite(src_n_override.shape[1] > 0 and src_n_override[i, 0] != -1, '
+                            'sum(matrix[i, :]) < src_n_override.shape[1] and src_n_override[i, sum(matrix[i, :])] == 1, '
+                            'chk(sum(matrix[i, :]), src_node_settings[i, :], max_src[i]))'),
+            'okT': (('j',), 'ite(tgt_n_override.shape[1] > 0 and tgt_n_override[j, 0] != -1, '
+                            'sum(matrix[:, j]) < tgt_n_override.shape[1] and tgt_n_override[j, sum(matrix[:, j])] == 1, '
+                            'chk(sum(matrix[:, j]), tgt_node_settings[j, :], max_tgt[j]))'),
         },
         calls={'_check_conns': F + '_check_conns'},
         loops={
@@ -68,7 +75,7 @@ def _rng():
 def _settings_row(rng, width):
     import numpy as np
     row = np.zeros((width,), dtype=np.int64)
-    if rng.random() < 0.4:
+    if rng.random() < 0.5:
         row[0] = 1
         row[1] = rng.randint(0, 2)
     else:
@@ -95,18 +102,20 @@ def _domain_validate_matrix(n):
     import numpy as np
     from adsg_core.optimization.assign_enc.matrix import _validate_matrix
     rng = _rng()
-    for _ in range(n):
+    for _ in range(n * 6):      # cheap calls; the interesting region (count beyond a narrow override table) is thin
         n0, n1 = rng.randint(0, 2), rng.randint(0, 2)
         m = np.array([[rng.randint(0, 2) for _ in range(n1)] for _ in range(n0)], dtype=np.int64).reshape(n0, n1)
         mc = np.array([[rng.randint(0, 2) for _ in range(n1)] for _ in range(n0)], dtype=np.int64).reshape(n0, n1)
         w = rng.randint(2, 6)
         ss = np.array([_settings_row(rng, w) for _ in range(n0)], dtype=np.int64).reshape(n0, w)
         ts = np.array([_settings_row(rng, w) for _ in range(n1)], dtype=np.int64).reshape(n1, w)
-        wo = rng.randint(0, 4)
-        so = np.array([[rng.randint(-1, 1) for _ in range(wo)] for _ in range(n0)], dtype=np.int64).reshape(n0, wo)
-        to = np.array([[rng.randint(-1, 1) for _ in range(wo)] for _ in range(n1)], dtype=np.int64).reshape(n1, wo)
-        ms = np.array([rng.randint(0, 4) for _ in range(n0)], dtype=np.int64)
-        mt = np.array([rng.randint(0, 4) for _ in range(n1)], dtype=np.int64)
+        wo = rng.choice([0, 1, 1, 2, 2, 3, 4])     # narrow override tables: counts beyond the table are exercised
+        def orow():
+            return [-1] * wo if rng.random() < 0.35 else [rng.randint(0, 1) for _ in range(wo)]
+        so = np.array([orow() for _ in range(n0)], dtype=np.int64).reshape(n0, wo)
+        to = np.array([orow() for _ in range(n1)], dtype=np.int64).reshape(n1, wo)
+        ms = np.array([rng.choice([0, 2, 3, 4, 4]) for _ in range(n0)], dtype=np.int64)
+        mt = np.array([rng.choice([0, 2, 3, 4, 4]) for _ in range(n1)], dtype=np.int64)
         env = dict(matrix=m, max_conn_mat=mc, src_node_settings=ss, tgt_node_settings=ts, src_n_override=so,
                    tgt_n_override=to, max_src=ms, max_tgt=mt)
         yield (env, (lambda e=env: bool(_validate_matrix(e['matrix'], e['max_conn_mat'], e['src_node_settings'],
